@@ -130,7 +130,7 @@ theorem entry_lt_next {f : Forest} (hi : f.Inv) {k : MapKind} {e key : Nat} {x :
       | namespaces => exact (List.takeWhile_prefix _).subset hx
       | attributes => exact (List.dropWhile_suffix _).subset ((List.takeWhile_prefix _).subset hx)
     apply hi.below
-    have hsub := findList?_sublist f.roots t hg
+    have hsub := fs_findList?_sublist f.roots t hg
     apply hsub.subset
     cases t with
     | node h' v' ks =>
